@@ -21,7 +21,12 @@
    clause 5  result code      NotSpecified / NotFound exactly when the pod names no gang / the gang
                               is not in the cache
    clause 6  otherwise waits  Permit returns Wait only when some gang of the group is not valid
-   clause 7  frame            informer events and PostBind do not touch the framework's waiting map *)
+   clause 7  frame            informer events and PostBind do not touch the framework's waiting map
+   clause 8  declaration      after every op the gangs in the cache are exactly the gangs declared by
+                              the informer events so far, with the declared mode / policy / minimum /
+                              gang group / origin and member set ([decl_step], recomputed from the
+                              history, not read from the cache) — so clauses 2-6 are judged against
+                              the declared group and minimum *)
 From Coq Require Import List ZArith Bool.
 From Verif Require Import C04.Model.
 Import ListNotations.
@@ -31,6 +36,7 @@ Definition vget (v : sview) (g : Z) : option gview := assocZ g (sv_gangs v).
 
 Definition subsetb (a b : list Z) : bool := forallb (fun x => memZ x b) a.
 Definition set_eqb (a b : list Z) : bool := subsetb a b && subsetb b a.
+Definition same_set0 (a b : list Z) : Prop := forall x, In x a <-> In x b.
 Definition disjointb (a b : list Z) : bool := forallb (fun x => negb (memZ x b)) a.
 Fixpoint nodupb (l : list Z) : bool :=
   match l with [] => true | x :: t => negb (memZ x t) && nodupb t end.
@@ -119,6 +125,84 @@ Definition must_reject (x : gview) : bool :=
 Definition members (h : hdr) (grp fw : list Z) : list Z := filter (in_group h grp) fw.
 Definition others (h : hdr) (grp fw : list Z) : list Z := filter (fun q => negb (in_group h grp q)) fw.
 
+(* ---------- clause 8: what a gang IS, recomputed from the history ----------
+   The declaration of a gang (initialised, mode, match policy, minimum, gang group, origin) and its
+   member set are a function of the informer events alone: a gang appears with the first pod or
+   PodGroup event that names it; annotation pods declare it once, while it is undeclared; every
+   PodGroup add / update event re-declares it; it disappears with its PodGroup's delete event, or
+   (no PodGroup declaration) with its last member. [decl_step] tracks exactly that, independently of
+   the cache's own bookkeeping, and the observed gangs are judged against it after every op. *)
+Record decl := mkDecl {
+  d_init : bool; d_strict : bool; d_policy : Z; d_min : Z; d_group : list Z; d_crd : bool;
+  d_children : list Z }.
+Notation dstate := (list (Z * decl)).
+
+Definition decl0 (g : Z) : decl := mkDecl false true pol_once_satisfied 0 [g] false [].
+Definition decl_cfg (g : Z) (c : cfg) (crd : bool) (d : decl) : decl :=
+  mkDecl true (norm_strict (c_mode c)) (norm_policy (c_policy c)) (c_min c) (norm_group g (c_group c)) crd
+         (d_children d).
+Definition decl_children (d : decl) (c : list Z) : decl :=
+  mkDecl (d_init d) (d_strict d) (d_policy d) (d_min d) (d_group d) (d_crd d) c.
+Definition decl_get (ds : dstate) (g : Z) : decl :=
+  match assocZ g ds with Some d => d | None => decl0 g end.
+
+Definition decl_pod (h : hdr) (ds : dstate) (p : Z) : dstate :=
+  let g := gang_of h p in
+  if g =? 0 then ds else
+  let d := decl_get ds g in
+  let d1 := if has_label h p || d_init d then d else decl_cfg g (acfg_of h g) false d in
+  putZ g (decl_children d1 (sadd p (d_children d1))) ds.
+
+Definition decl_step (h : hdr) (ds : dstate) (o : op) : dstate :=
+  match o with
+  | PodAdd p _ => decl_pod h ds p
+  | PodUpdate p _ terminated => if terminated then ds else decl_pod h ds p
+  | PodDelete p =>
+      let g := gang_of h p in
+      if g =? 0 then ds else
+      match assocZ g ds with
+      | None => ds
+      | Some d =>
+          let d' := decl_children d (srem p (d_children d)) in
+          if negb (d_crd d') && is_nil (d_children d') then delZ g ds else putZ g d' ds
+      end
+  | PGAdd g c => if valid_gid h g then putZ g (decl_cfg g c true (decl_get ds g)) ds else ds
+  | PGUpdate g c =>
+      if valid_gid h g
+      then match assocZ g ds with Some d => putZ g (decl_cfg g c true d) ds | None => ds end
+      else ds
+  | PGDelete g =>
+      if valid_gid h g
+      then match assocZ g ds with Some _ => delZ g ds | None => ds end
+      else ds
+  | _ => ds
+  end.
+
+Definition decl_agrees (d : decl) (x : gview) : Prop :=
+  d_init d = v_init x /\ d_strict d = v_strict x /\ d_policy d = v_policy x /\ d_min d = v_min x
+  /\ same_set0 (d_group d) (v_group x) /\ d_crd d = v_crd x /\ same_set0 (d_children d) (v_children x).
+Definition decl_agreesb (d : decl) (x : gview) : bool :=
+  Bool.eqb (d_init d) (v_init x) && Bool.eqb (d_strict d) (v_strict x) && (d_policy d =? v_policy x)
+  && (d_min d =? v_min x) && set_eqb (d_group d) (v_group x) && Bool.eqb (d_crd d) (v_crd x)
+  && set_eqb (d_children d) (v_children x).
+
+Definition decl_match_at (ds : dstate) (v : sview) (g : Z) : Prop :=
+  match assocZ g ds, vget v g with
+  | Some d, Some x => decl_agrees d x
+  | None, None => True
+  | _, _ => False
+  end.
+Definition decl_match_atb (ds : dstate) (v : sview) (g : Z) : bool :=
+  match assocZ g ds, vget v g with
+  | Some d, Some x => decl_agreesb d x
+  | None, None => true
+  | _, _ => false
+  end.
+(* the gangs in the cache are exactly the declared ones, with the declared figures and members *)
+Definition decl_match (ds : dstate) (v : sview) : Prop := forall g, decl_match_at ds v g.
+Definition decl_matchb (ds : dstate) (v : sview) : bool :=
+  forallb (decl_match_atb ds v) (map fst ds ++ map fst (sv_gangs v)).
+
 (* ---------- per-operation decision ---------- *)
 Definition quiet (r : out) (cur : sview) (fw' : list Z) : bool :=
   is_nil (o_rejected r) && set_eqb (sv_fw cur) fw'.
@@ -174,24 +258,28 @@ Definition check_op (h : hdr) (strict : bool) (prev : sview) (o : op) (r : out) 
   | _ => check_event prev r cur
   end.
 
-Definition step_code (h : hdr) (tainted : bool) (prev : sview) (o : op) (r : out) (cur : sview) : Z :=
-  if negb tainted && negb (all_part_okb cur) then 1 else check_op h (negb tainted) prev o r cur.
+Definition step_code (h : hdr) (tainted : bool) (ds : dstate) (prev : sview) (o : op) (r : out) (cur : sview) : Z :=
+  if negb tainted && negb (all_part_okb cur) then 1
+  else if negb (decl_matchb ds cur) then 8
+  else check_op h (negb tainted) prev o r cur.
 
-Fixpoint prop_walk (h : hdr) (tainted : bool) (prev : sview) (ops : list op) (l : list obs) : Z :=
+(* [ds]: the declarations after the ops walked so far; [prev]: the previous observation *)
+Fixpoint prop_walk (h : hdr) (tainted : bool) (ds : dstate) (prev : sview) (ops : list op) (l : list obs) : Z :=
   match ops, l with
   | [], [] => 0
   | o :: ops', (r, cur) :: l' =>
       let tainted' := tainted || permit_guard_viol h prev o in
-      let c := step_code h tainted' prev o r cur in
-      if c =? 0 then prop_walk h tainted' cur ops' l' else c
+      let ds' := decl_step h ds o in
+      let c := step_code h tainted' ds' prev o r cur in
+      if c =? 0 then prop_walk h tainted' ds' cur ops' l' else c
   | _, _ => 9
   end.
 
 Definition prop_code (h : hdr) (ops : list op) (l : list obs) : Z :=
-  prop_walk h false (view init_state) ops l.
+  prop_walk h false [] (view init_state) ops l.
 
 (* ---------- the same as Props ---------- *)
-Definition same_set (a b : list Z) : Prop := forall x, In x a <-> In x b.
+Notation same_set := same_set0.
 
 (* the Permit clause: released only when the whole group qualifies, then everybody is released;
    otherwise the pod waits *)
@@ -233,16 +321,18 @@ Definition op_holds (h : hdr) (strict : bool) (prev : sview) (o : op) (r : out) 
   | _ => event_holds prev r cur
   end.
 
-Fixpoint holds_walk (h : hdr) (tainted : bool) (prev : sview) (ops : list op) (l : list obs) : Prop :=
+Fixpoint holds_walk (h : hdr) (tainted : bool) (ds : dstate) (prev : sview) (ops : list op) (l : list obs) : Prop :=
   match ops, l with
   | [], [] => True
   | o :: ops', (r, cur) :: l' =>
       let tainted' := tainted || permit_guard_viol h prev o in
+      let ds' := decl_step h ds o in
       (tainted' = false -> all_partition_ok cur)
+      /\ decl_match ds' cur
       /\ op_holds h (negb tainted') prev o r cur
-      /\ holds_walk h tainted' cur ops' l'
+      /\ holds_walk h tainted' ds' cur ops' l'
   | _, _ => False
   end.
 
 Definition C04_holds (h : hdr) (ops : list op) (l : list obs) : Prop :=
-  holds_walk h false (view init_state) ops l.
+  holds_walk h false [] (view init_state) ops l.
